@@ -13,6 +13,7 @@
   plus the clause-by-clause rejection lemmas and the facts about the generated `Gen.Dispatch` table.
 -/
 import AITB.Props.C18c
+import AITB.Props.C18d
 import AITB.Gen.Dispatch
 namespace AITB.Cassandra
 
@@ -687,6 +688,29 @@ example : ∃ p lines sT sR sW, parseModelInfo (splitLines sampleText) {} [] = .
   · rw [h'] at h; cases h
   · obtain ⟨lines, sT, sR, sW, hpre, _, _, _, hfile, _⟩ := parser_accepts_only_wellformed (fl := ⟨true, true⟩) rfl h'
     exact ⟨r.pre, lines, sT, sR, sW, hpre, hfile⟩
+
+/-- the character-level theorem applies to a concrete line with an unusual layout (hypotheses satisfiable):
+    `T :act0:  * : s1    0.25` -/
+example : ∃ v, MatrixLine 3 2 3 [("act0".toList, 0)] [("s1".toList, 1)] [("s1".toList, 1)]
+    ("T".toList ++ renderToks [(" :".toList, "act0".toList), (":  ".toList, "*".toList), (" : ".toList, "s1".toList), ("    ".toList, "0.25".toList)] " ".toList)
+    [] ⟨.idx 0, .all, .entry (.idx 1) v⟩ 0 := by
+  have hv : (stod "0.25".toList).toOption.isSome = true := by decide +kernel
+  rcases hs : stod "0.25".toList with e | v
+  · rw [hs] at hv; cases hv
+  · refine ⟨v, entry_line_denotes 3 2 3 _ _ _ [] _ _ _ _ _ _ _ _ _ _ (.idx 0) .all (.idx 1) v ?_ ?_ ?_ ?_ ?_ ?_ ?_ ?_ ?_ ?_ ?_ ?_ ?_ hs⟩
+    · exact ⟨by decide, by decide⟩
+    · exact ⟨by decide, by decide⟩
+    · exact ⟨by decide, by decide⟩
+    · exact ⟨by decide, by decide⟩
+    · exact ⟨by decide, by decide⟩
+    · exact ⟨by decide, by decide⟩
+    · exact ⟨by decide, by decide⟩
+    · exact ⟨by decide, by decide⟩
+    · exact ⟨by decide, by decide⟩
+    · decide
+    · exact Or.inr ⟨by decide, Or.inl ⟨0, by decide, rfl⟩⟩
+    · exact Or.inl ⟨rfl, rfl⟩
+    · exact Or.inr ⟨by decide, Or.inl ⟨1, by decide, rfl⟩⟩
 
 /-- `MatrixLine` is inhabited by a concrete wildcard/name line -/
 example : ∃ s, MatrixLine 2 1 2 [("go".toList, 0)] [("b".toList, 1), ("a".toList, 0)] [("b".toList, 1), ("a".toList, 0)]
